@@ -42,6 +42,7 @@ func Run(p *load.Program, tier string) *oblig.Set {
 	segmentsRule(p, s)
 	recoverRule(p, s)
 	pairingRule(p, s)
+	reportTextRule(p, s)
 	return s
 }
 
@@ -236,6 +237,38 @@ func checkCompileCalls(p *load.Program, s *oblig.Set, fn *ssa.Function, trees ss
 				s.OK("P2", k, pos, "every element of the parse result is rewritten and compiled")
 			} else {
 				s.Bad("P2", k, pos, "the tree compiled is not taken from a loop over every statement of the parse result (only some statements of the input would be executed)")
+			}
+			// the loop over the statements is left only when they are used up
+			if okElem {
+				if exits := earlyExits(c.Block(), trees); len(exits) > 0 {
+					var where []string
+					for _, x := range exits {
+						where = append(where, p.Pos(x))
+					}
+					s.Bad("P2", k+" / every statement of the input is executed", pos, "the loop over the statements of one input is left before they are used up (at "+strings.Join(where, ", ")+"): after a failing statement the rest of the same input is silently dropped, while the same statements on separate lines would run")
+				} else {
+					s.OK("P2", k+" / every statement of the input is executed", pos, "the loop over the parse result has no exit but its bound test")
+				}
+			}
+			// each statement is run before the next one is compiled: the Run that
+			// executes it belongs to the same round of the loop
+			if okElem {
+				inRound := false
+				for _, x := range c.Parent().Blocks {
+					if !(reaches(c.Block(), x) && reaches(x, c.Block())) {
+						continue
+					}
+					for _, ins2 := range x.Instrs {
+						if cc, ok := ins2.(ssa.CallInstruction); ok && strings.HasSuffix(calleeName(cc.Common()), "vm.Type).Run") {
+							inRound = true
+						}
+					}
+				}
+				if inRound {
+					s.OK("P2", k+" / run before the next statement is compiled", pos, "Run is called in the same round of the statement loop")
+				} else {
+					s.Bad("P2", k+" / run before the next statement is compiled", pos, "the statements of one input are all compiled before anything runs: a top-level return or a runtime error in one statement skips the statements after it, and only the last value is shown, while script mode and the REPL run statement by statement")
+				}
 			}
 			// followed by Run
 			if !reachesRun(c) {
@@ -432,6 +465,8 @@ func loopRule(p *load.Program, s *oblig.Set) {
 	key := "node.Loop / a line returned together with a read error is processed"
 	found, okP3 := false, true
 	var witness []string
+	nLine := 0
+	var dropped []string
 	for _, r := range all {
 		if r.end != "return" {
 			s.Unk("P3", "node.Loop / path", pos, "path could not be evaluated: "+r.end, r.conds...)
@@ -439,6 +474,26 @@ func loopRule(p *load.Program, s *oblig.Set) {
 			continue
 		}
 		if !r.err1 {
+			// a line that was read without error and completes a statement is
+			// handed to processInput whatever it looks like (P3b)
+			completeNE := !r.lineEmpty
+			for _, c := range r.conds {
+				if strings.Contains(c, "count(") && (strings.HasPrefix(c, "==(") && strings.HasSuffix(c, ":= false") || strings.HasPrefix(c, "!=(") && strings.HasSuffix(c, ":= true")) {
+					completeNE = false
+				}
+			}
+			if completeNE {
+				nLine++
+				hasL := false
+				for _, pi := range r.processed {
+					if strings.Contains(pi, "LINE1") {
+						hasL = true
+					}
+				}
+				if !hasL && dropped == nil {
+					dropped = r.conds
+				}
+			}
 			continue
 		}
 		// the statement is complete: every balance test says so
@@ -466,6 +521,15 @@ func loopRule(p *load.Program, s *oblig.Set) {
 			okP3 = false
 			witness = r.conds
 		}
+	}
+	keyB := "node.Loop / every line read reaches the parser"
+	switch {
+	case dropped != nil:
+		s.Bad("P3", keyB, pos, "a line that was read without error and leaves no block, bracket or quote open is not handed to processInput: the driver drops source text on its own judgement (such a line may be part of a multi-line string literal, or mean something the driver does not know)", dropped...)
+	case nLine == 0:
+		s.Unk("P3", keyB, pos, "no path found on which a complete line is read without error")
+	default:
+		s.OK("P3", keyB, pos, fmt.Sprintf("%d path(s): a complete line read without error is processed", nLine))
 	}
 	switch {
 	case found && okP3:
@@ -514,26 +578,61 @@ func readerRule(p *load.Program, s *oblig.Set) {
 	}
 	pos := p.Pos(fn.Pos())
 	key := "node.FReader.read / returns whole lines of any length"
-	ok := false
-	var calls []string
-	for _, b := range fn.Blocks {
-		for _, ins := range b.Instrs {
-			if c, isC := ins.(*ssa.Call); isC {
-				n := calleeName(&c.Call)
-				calls = append(calls, n)
-				if n == "(*bufio.Reader).ReadString" {
-					if cst, isK := c.Call.Args[1].(*ssa.Const); isK && cst.Int64() == '\n' {
-						ok = true
-					}
-				}
+	key10 := "node.FReader.read / hands out lines without their line break, like the interactive reader"
+	// what the method returns, with the buffered reader's calls opaque
+	o := &absint.Oracle{}
+	in := absint.NewInterp(p.SSA, o)
+	var reads []string
+	in.Hooks.Call = func(in *absint.Interp, callee *ssa.Function, args []absint.Val, site ssa.Instruction) (absint.Val, bool) {
+		if callee.Pkg != nil && callee.Pkg.Pkg.Path() == "bufio" {
+			var ks []string
+			for _, a := range args[1:] {
+				ks = append(ks, absint.Key(a))
 			}
+			reads = append(reads, callee.Name()+"("+strings.Join(ks, ",")+")")
+			tu := &absint.Tuple{}
+			for i := 0; i < callee.Signature.Results().Len(); i++ {
+				tu.E = append(tu.E, &absint.Sym{Op: fmt.Sprintf("%s.%d", callee.Name(), i), T: callee.Signature.Results().At(i).Type()})
+			}
+			if len(tu.E) == 1 {
+				return tu.E[0], true
+			}
+			return tu, true
+		}
+		return nil, false
+	}
+	recv := absint.NewVar("FR", fn.Params[0].Type())
+	if st, ok := fn.Params[0].Type().Underlying().(*types.Struct); ok {
+		z := absint.Zero(fn.Params[0].Type()).(*absint.Struct)
+		f := append([]absint.Val(nil), z.F...)
+		for i := 0; i < st.NumFields(); i++ {
+			f[i] = absint.NewVar("FR."+st.Field(i).Name(), st.Field(i).Type())
+		}
+		recv = nil
+		res, end := in.Run(fn, []absint.Val{&absint.Struct{T: fn.Params[0].Type(), F: f}})
+		single := !o.Next()
+		tu, _ := res.(*absint.Tuple)
+		if end != nil || !single || tu == nil || len(tu.E) != 2 {
+			s.Unk("P3", key, pos, fmt.Sprintf("the reader could not be evaluated as one straight path: %v", end))
+			return
+		}
+		line, errv := strings.ReplaceAll(absint.Key(tu.E[0]), "()", ""), strings.ReplaceAll(absint.Key(tu.E[1]), "()", "")
+		whole := len(reads) == 1 && reads[0] == "ReadString(10)" && errv == "ReadString.1" && strings.Contains(line, "ReadString.0")
+		if whole {
+			s.OK("P3", key, pos, "bufio.Reader.ReadString('\\n'): unbounded line length, data returned together with io.EOF; the error is handed on unchanged")
+		} else {
+			s.Bad("P3", key, pos, fmt.Sprintf("the script reader must return each line whole whatever its length and hand back the final unterminated line together with the read error (bufio.Reader.ReadString('\\n')); it reads with %v and returns (%s, %s): a size-limited reader (bufio.Scanner, ReadLine) drops or splits long lines", reads, line, errv))
+		}
+		// P10: Loop puts one line break between the lines of a statement; the
+		// interactive reader delivers lines without terminator, so must this one
+		switch line {
+		case `strings.TrimSuffix(ReadString.0,"\n")`, `strings.TrimRight(ReadString.0,"\n")`:
+			s.OK("P10", key10, pos, line)
+		default:
+			s.Bad("P10", key10, pos, "node.Loop joins the lines of a multi-line statement with a line break of its own; the readline based reader returns lines without their terminator, the script reader returns "+line+": a line break inside a multi-line string literal is doubled in script mode (the same literal is one character per line longer in a script than in the REPL)")
 		}
 	}
-	if ok && len(calls) == 1 {
-		s.OK("P3", key, pos, "bufio.Reader.ReadString('\\n'): unbounded line length, data returned together with io.EOF")
-	} else {
-		s.Bad("P3", key, pos, "the script reader must return each line whole whatever its length and hand back the final unterminated line (bufio.Reader.ReadString('\\n')); it calls "+strings.Join(calls, ", ")+": a size-limited reader (bufio.Scanner, ReadLine) drops or splits long lines")
-	}
+	_ = recv
 }
 
 // reportRule (P5): rendering the caret line of a parse error cannot abort:
@@ -746,4 +845,46 @@ func emptinessTest(key, v string) (isTest bool, saysEmpty bool) {
 		return true, false
 	}
 	return false, false
+}
+
+// earlyExits: the loop (strongly connected region) around block b, which walks
+// the parse result, may only be left through the test of its index against
+// len(trees); the positions of all other exits are returned.
+func earlyExits(b *ssa.BasicBlock, trees ssa.Value) []token.Pos {
+	inLoop := map[*ssa.BasicBlock]bool{}
+	for _, x := range b.Parent().Blocks {
+		if reaches(b, x) && reaches(x, b) {
+			inLoop[x] = true
+		}
+	}
+	if len(inLoop) < 2 {
+		return nil
+	}
+	var out []token.Pos
+	for x := range inLoop {
+		for _, sc := range x.Succs {
+			if inLoop[sc] {
+				continue
+			}
+			// the bound test?
+			okExit := false
+			if iff, ok := x.Instrs[len(x.Instrs)-1].(*ssa.If); ok {
+				if cmp, ok := iff.Cond.(*ssa.BinOp); ok && cmp.Op == token.LSS {
+					if l, ok := cmp.Y.(*ssa.Call); ok {
+						if bi, ok := l.Call.Value.(*ssa.Builtin); ok && bi.Name() == "len" && strip(l.Call.Args[0]) == trees {
+							okExit = true
+						}
+					}
+				}
+			}
+			if !okExit {
+				pos := x.Instrs[len(x.Instrs)-1].Pos()
+				if !pos.IsValid() && len(sc.Instrs) > 0 {
+					pos = sc.Instrs[len(sc.Instrs)-1].Pos()
+				}
+				out = append(out, pos)
+			}
+		}
+	}
+	return out
 }
